@@ -1,6 +1,6 @@
 (** C12 - The static checker is sound for types and its verdicts are stable. Statements only.
 
-    [Ast.etype] is the checker's typing of expressions, built on the table [cast_binary_op] that is
+    [Ast.etype] is the checker's typing of expressions, built on the table [spec_binary_op] that is
     regenerated from the checker's own code on every run; [Typing.wt_stmt] are its kind rules for
     the core statements (compared with the real verdict on accepted and on ill-typed programs).
     Proved for every expression, state and value: a typed expression never raises Type mismatch and
@@ -14,6 +14,13 @@ From Coq Require Import List ZArith Bool Floats.SpecFloat.
 From RB Require Import Generated.Tables Val.Variant Val.Arith2 Lang.Ast Lang.Sem Lang.Typing Lang.TypingStmt.
 Import ListNotations.
 
+From RB Require Import Lang.TableRule.
+
+(** the static types of binary operators computed by the checker (table regenerated from its code on
+    every run) are the language rule: comparisons, AND, OR, MOD give INTEGER; + - * / the wider operand type *)
+Theorem C12_static_types_follow_the_rule : forall l r op, cast_binary_op l r op = spec_binary_op l r op.
+Proof. exact cast_binary_op_is_the_rule. Qed.
+
 Theorem C12_expressions_never_mismatch : forall e q st, etype e = Some q -> env_ok st ->
   match eval e st with
   | EVal v st' => is_str v = is_str_q q /\ env_ok st'
@@ -21,7 +28,7 @@ Theorem C12_expressions_never_mismatch : forall e q st, etype e = Some q -> env_
   end.
 Proof. exact eval_sound. Qed.
 
-Theorem C12_operators_on_admitted_kinds : forall o a b qa qb q, cast_binary_op qa qb o = Some q ->
+Theorem C12_operators_on_admitted_kinds : forall o a b qa qb q, spec_binary_op qa qb o = Some q ->
   is_str a = is_str_q qa -> is_str b = is_str_q qb ->
   no_tm (binop o a b) /\ forall v, binop o a b = Ok v -> is_str v = is_str_q q.
 Proof. exact binop_sound. Qed.
@@ -69,3 +76,4 @@ Print Assumptions C12_assignment_sound.
 Print Assumptions C12_statement_sound.
 Print Assumptions C12_program_sound.
 Print Assumptions C12_ok_outcome_means.
+Print Assumptions C12_static_types_follow_the_rule.
